@@ -72,7 +72,7 @@ CLAIMED = {
             "DESIGN.md §5 C11"),
     "C12": (ENGINE_B, "exploration",
             "real Sampler under the seeded scheduler; pause-interval oracle over the recorded event history",
-            "Seeded search over the point at which pause/resume land relative to every chain's loop (the user task yields many times after pause() returned so chains get every chance to overrun); per chain the draws recorded between return of pause() and the next resume() are bounded by 1 + earlier resume commands, unstarted chains record nothing, and the final trace equals the uninterrupted run.",
+            "Seeded search over the point at which pause/resume land relative to every chain's loop (the user task yields many times after pause() returned so chains get every chance to overrun); per chain the draws recorded between return of pause() and the next resume() are bounded by 1 + earlier resume commands (by 1 once the chain has certainly drained all earlier commands), unstarted chains record nothing, and the final trace equals the uninterrupted run.",
             "Same stubs as C10; the bound uses only commands issued by the user.",
             "DESIGN.md §5 C12"),
     "C13": (ENGINE_B, "fault_enumeration",
@@ -87,7 +87,7 @@ CLAIMED = {
             "DESIGN.md §5 C14"),
     "C15": (ENGINE_C, "fault_enumeration",
             "Zarr writer over a fault/snapshot store: crash point after every flush, k-th store write failing",
-            "Per history a flush follows recorded draws with probability up to 1 (crash point after every recorded draw), for chunk sizes 1, smaller than, equal to, larger than and not dividing the draw counts; after each flush a fresh zarrs reader on a snapshot of the store must read the acknowledged prefix of every variable and statistic of the flushed chain (all chains' earlier acknowledgements are re-checked periodically and after finalize). A second batch fails the k-th store write: the call must return Err without panic and acknowledged prefixes must still read back.",
+            "Per history a flush follows recorded draws with probability up to 1 (crash point after every recorded draw), for chunk sizes 1, smaller than, equal to, larger than and not dividing the draw counts; after each flush a fresh zarrs reader on a snapshot of the store must read the acknowledged prefix of every variable and statistic of the flushed chain (all chains' earlier acknowledgements are re-checked periodically and after finalize). A second batch fails the k-th store write: the call must return Err without panic and acknowledged prefixes must still read back. An engine-B batch runs the real Sampler with flush-heavy scripts under the seeded scheduler: a flush() that returned Ok must have reached every chain's storage after the draws recorded before it was invoked.",
             "Sync writer on the zarrs MemoryStore and (a fifth of the flush-point runs, a quarter of the write-fault runs) on the real zarrs FilesystemStore in a scratch directory; async writer on a delaying in-memory store (tokio itself is not under the simulator, DESIGN.md §0.3). A crash is 'the process stops between two calls; what the store holds at that moment survives' - torn or lost writes inside a call are outside the property's quantifier.",
             "DESIGN.md §5 C15"),
     "C18": (ENGINE_A, "exploration",
